@@ -703,3 +703,52 @@ def shared_constants(ctx):
     from .common_alias import shared_constants as run
     run(ctx, ['wallets', 'keys', 'transactions', 'db'],
         'after one legitimate include_private=True export every later default export (keys(as_dict=True), as_dict(), as_json()) contains the private key bytes and the xprv of every key')
+
+
+@PROP.obligation('C16.signature-key-public', canaries=[
+    mut.replace_stmt('keys', 'Signature.public_key.setter', 'if value.is_private:', 'if isinstance(value, Key) and value.is_private and False:\n    value = value.public()', 'private keys are stored on the signature as they come') if False else
+    mut.Canary('private test only on one branch of the setter', 'keys', lambda tree: _elif_private(tree)),
+])
+def signature_key_public(ctx):
+    """Signature.public_key (setter): whatever form the key arrives in - object, bytes, hex, WIF - the object stored in _public_key has gone
+    through the `is_private` test that replaces a private key by its public() copy: on the control-flow graph every path from the entry to
+    the store passes that test. A key BUILT inside the setter from raw private input must not bypass it."""
+    from ..cfg import build_cfg
+    cls = ctx.repo.cls('keys:Signature')
+    fn = None
+    for s_ in cls.body:
+        if isinstance(s_, ast.FunctionDef) and s_.name == 'public_key' and any(isinstance(d, ast.Attribute) and d.attr == 'setter' for d in s_.decorator_list):
+            fn = s_
+    if fn is None:
+        ctx.undecided('Signature.public_key setter not found')
+    q = 'keys:Signature.public_key'
+    g = build_cfg(fn)
+    stores = [n.id for n in g.nodes if n.kind == 'stmt' and isinstance(n.ast, ast.Assign) and norm(n.ast.targets[0]) == 'self._public_key']
+    tests = [n.id for n in g.nodes if n.kind == 'test' and n.ast is not None and 'is_private' in norm(n.ast)]
+    if not stores:
+        ctx.undecided('Signature.public_key setter: store of _public_key not found')
+    ctx.saw('setter: %d store(s) of _public_key, %d is_private test(s)' % (len(stores), len(tests)))
+    if not tests:
+        ctx.violate(q, 'the key is stored without an is_private test', fn, 'a Signature created with a private key keeps it: public_key.wif(is_private=True), pickle and deepcopy of the signature contain the private key')
+        return
+    for st_ in stores:
+        p = g.path_avoiding([st_], tests, skip_exc=True)
+        if p is not None:
+            ctx.violate(q, 'there is a path to `self._public_key = value` that does not pass the is_private test (%s)' % g.describe_path(p)[:80], g[st_].ast,
+                        'a private key given as raw bytes / hex / WIF is converted to a key object inside the setter and stored as it is: Signature.public_key then has is_private True, secret and private_hex set')
+    # and the test leads to public()
+    pub = [n for n in ast.walk(fn) if isinstance(n, ast.If) and 'is_private' in norm(n.test) and any(isinstance(x, ast.Assign) and norm(x.value).endswith('.public()') for x in n.body)]
+    ctx.require(bool(pub), q, 'the is_private test does not replace the key by its public() copy', fn)
+
+
+def _elif_private(tree):
+    for c in ast.walk(tree):
+        if isinstance(c, ast.ClassDef) and c.name == 'Signature':
+            for f in c.body:
+                if isinstance(f, ast.FunctionDef) and f.name == 'public_key' and any(isinstance(d, ast.Attribute) and d.attr == 'setter' for d in f.decorator_list):
+                    for i, s_ in enumerate(f.body):
+                        if isinstance(s_, ast.If) and 'isinstance(value, bytes)' in ast.unparse(s_.test) and i + 1 < len(f.body) and isinstance(f.body[i + 1], ast.If):
+                            s_.orelse = [f.body[i + 1]]
+                            del f.body[i + 1]
+                            return True
+    return False
